@@ -313,7 +313,8 @@ def run_shard(ctx):
     ntries = 200 if ctx.tier == "quick" else 1500
     limit = 5 if ctx.tier == "quick" else 8
     for i in range(ntries):
-        base = hs.gen_build(rnd, maxkeys=rnd.choice([2, 4, 8, 12]), deletes=True)
+        base = hs.gen_build(rnd, maxkeys=rnd.choice([2, 4, 8, 12]), deletes=True) if rnd.random() > 0.04 else \
+            hs.gen_build(rnd, maxkeys=60, deletes=True, bulk=True)
         # find out the hashed reachable nodes (from the reference of the resulting model)
         model = {}
         for op in base["hist"]:
